@@ -50,26 +50,45 @@ Print Assumptions hash_is_64_bit.
 
 (* the byte string fed to FNV determines the value up to its children's hashes:
    same kind, same scalar content, same list of child hashes, same sorted list
-   of (key, child hash) — for objects whose keys contain no ':' *)
+   of (key, child hash) — for every well-formed value, whatever bytes its keys
+   contain (each key is written behind its length).  [top_ok] only asks that the
+   value is one a Go program can hold: a date's seconds / zone offset fit
+   time.Time's binary form, a key is shorter than 2^64 bytes. *)
 Theorem preimage_injective_modulo_children : forall a b sa sb,
   wfb a = true -> wfb b = true -> top_ok a -> top_ok b ->
   shallow_of a = Some sa -> shallow_of b = Some sb -> preimage sa = preimage sb -> sa = sb.
 Proof. exact preimage_injective_values. Qed.
 Print Assumptions preimage_injective_modulo_children.
 
-(* ... and without the restriction on keys it is false: two well-formed,
-   structurally different objects with the same pre-image, hence the same hash *)
-Theorem object_key_delim_collision_refuted :
-  exists a b sa sb, wfb a = true /\ wfb b = true /\ ~ struct_eq a b /\
-    shallow_of a = Some sa /\ shallow_of b = Some sb /\ preimage sa = preimage sb /\ hash a = hash b.
-Proof. exact object_key_delim_collision. Qed.
-Print Assumptions object_key_delim_collision_refuted.
+(* the same for objects alone, with the only side condition spelled out: no
+   condition on what the keys contain *)
+Theorem object_preimage_injective : forall m m',
+  Forall (fun kv => (N.of_nat (List.length (fst kv)) < 2 ^ 64)%N) m ->
+  Forall (fun kv => (N.of_nat (List.length (fst kv)) < 2 ^ 64)%N) m' ->
+  preimage (ShObj (sort_members (map (fun kv => (fst kv, hash (snd kv))) m))) =
+  preimage (ShObj (sort_members (map (fun kv => (fst kv, hash (snd kv))) m'))) ->
+  sort_members (map (fun kv => (fst kv, hash (snd kv))) m) =
+  sort_members (map (fun kv => (fst kv, hash (snd kv))) m').
+Proof. exact HashProofs.object_preimage_injective. Qed.
+Print Assumptions object_preimage_injective.
 
-(* the collision is a family: {a: v, b: w} and {"a:" ++ le64 (hash v) ++ ",b": w} *)
-Theorem object_key_delim_collision_family : forall v w,
-  hash (collide_left v w) = hash (collide_right v w) /\ ~ struct_eq (collide_left v w) (collide_right v w).
-Proof. exact (fun v w => conj (collide_hash v w) (collide_not_struct_eq v w)). Qed.
-Print Assumptions object_key_delim_collision_family.
+(* the family that used to collide while keys were written without their length,
+   {a: v, b: w} and {"a:" ++ le64 (hash v) ++ ",b": w}: two different values whose
+   pre-images now differ, for all v and w *)
+Theorem former_key_delim_family_separated : forall v w sa sb,
+  shallow_of (collide_left v w) = Some sa -> shallow_of (collide_right v w) = Some sb ->
+  ~ struct_eq (collide_left v w) (collide_right v w) /\ preimage sa <> preimage sb.
+Proof. exact (fun v w sa sb ea eb => conj (collide_not_struct_eq v w) (collide_preimage_differs v w sa sb ea eb)). Qed.
+Print Assumptions former_key_delim_family_separated.
+
+(* ... and on the recorded witness (v = 5578, w = 2) the 64-bit values differ too:
+   Value.Hash, the COLLECT group key, and MapHash of the two member maps *)
+Theorem former_collision_witness_hashes_differ :
+  hash (collide_left (VInt 5578) (VInt 2)) <> hash (collide_right (VInt 5578) (VInt 2)) /\
+  collect_key (bs "k") (collide_left (VInt 5578) (VInt 2)) <> collect_key (bs "k") (collide_right (VInt 5578) (VInt 2)) /\
+  map_hash [(bs "a", VInt 5578); (bs "b", VInt 2)] <> map_hash [(collide_key (hash (VInt 5578)), VInt 2)].
+Proof. exact collide_witness_hash_differs. Qed.
+Print Assumptions former_collision_witness_hashes_differ.
 
 (* exact de-duplication under the no-collision hypothesis on the values that
    occur (P): the hash-table de-duplicator returns exactly the first occurrence
@@ -118,8 +137,13 @@ Print Assumptions dedup_keeps_first.
    conditions, and the no-collision hypothesis is met by P := In (universe 1) *)
 Example universe_wf : forallb wfb (universe 1) = true /\ length (universe 1) = 1415%nat.
 Proof. split; vm_compute; reflexivity. Qed.
-Example top_ok_satisfiable : top_ok (VObj [(bs "k,", VDate 1700000000 5 (-120))]) /\ top_ok (VDate 0 0 (-1)).
-Proof. split; [constructor; [cbn; intuition discriminate|constructor]|cbn; unfold unix_to_internal; split; split; discriminate || reflexivity]. Qed.
+Example top_ok_satisfiable :
+  top_ok (VObj [(bs "a:b,c", VDate 1700000000 5 (-120))]) /\ top_ok (collide_right (VInt 5578) (VInt 2)) /\ top_ok (VDate 0 0 (-1)).
+Proof.
+  split; [constructor; [vm_compute; reflexivity|constructor]|].
+  split; [constructor; [vm_compute; reflexivity|constructor]|].
+  cbn; unfold unix_to_internal; split; split; discriminate || reflexivity.
+Qed.
 Example no_collision_satisfiable :
   forall a b, In a (universe 1) -> In b (universe 1) -> hash a = hash b -> struct_eq a b.
 Proof. exact hash_injective_on_universe_1. Qed.
